@@ -152,7 +152,8 @@ def observe(ch, addr, calldata, exit_name):
     from .evm import log_tuple
     exit_name = exit_name.replace("+dirty_input", "")
     exit_name = {"storage_return": "ret_cd", "storage_event": "lit_event", "storage_abi_encode": "ret_cd",
-                 "storage_custom_error": "custom_error_revert"}.get(exit_name, exit_name)
+                 "storage_custom_error": "custom_error_revert", "raw_return": "ret_cd",
+                 "raw_revert": "custom_error_revert", "raw_log": "lit_event"}.get(exit_name, exit_name)
     r = ch.call(addr, calldata)
     if exit_name in ("ret_cd", "ret_mem", "ret_sto", "ret2", "abi_encode", "abi_encode_no_tuple", "abi_encode_method_id",
                      "lit_darr", "lit_darr1", "lit_struct", "lit_tuple", "lit_abi_encode"):
@@ -359,6 +360,19 @@ def sto_err(x: {T}):
 {P}    raise ErrS(a=self.st)
 
 @external
+@raw_return
+def raw_ret(x: {T}) -> Bytes[{nS}]:
+{P}    return abi_encode(x)
+
+@external
+def raw_rev(x: {T}):
+{P}    raw_revert(abi_encode(x))
+
+@external
+def raw_lg(x: {T}):
+{P}    raw_log([0x0000000000000000000000000000000000000000000000000000000000000007], abi_encode(x))
+
+@external
 def lit_darr(x: {T}) -> DynArray[{T}, 2]:
 {P}    return [x, x]
 
@@ -421,7 +435,9 @@ def run_lit_config(job):
                     ("lit_abi_encode", "lit_enc", "ret_cd", wL), ("lit_event", "lit_log", "lit_event", eL),
                     ("storage_return", "sto_ret", "ret_cd", eA), ("storage_event", "sto_log", "lit_event", eA),
                     ("storage_abi_encode", "sto_enc", "ret_cd", wS),
-                    ("storage_custom_error", "sto_err", "custom_error_revert", sel_errs + eA)]
+                    ("storage_custom_error", "sto_err", "custom_error_revert", sel_errs + eA),
+                    ("raw_return", "raw_ret", "ret_cd", eA), ("raw_revert", "raw_rev", "custom_error_revert", eA),
+                    ("raw_log", "raw_lg", "lit_event", eA)]
             # every exit once with the canonical calldata and once with NON-ZERO padding in the calldata
             # (accepted by the decoder; what is emitted must still be canonical)
             inputs = [("", eA)] + ([("+dirty_input", case["dirty"])] if case.get("dirty") else [])
